@@ -119,8 +119,6 @@ func oneHistory(run *mon.Run, t *testing.T, idx int, p params) {
 
 func history(run *mon.Run, name string, p params) (string, bool) {
 	rng := rand.New(rand.NewSource(p.seed))
-	rueidis.VerifSetQueueType("flowbuffer")
-	defer rueidis.VerifSetQueueType("")
 	srv := fakeredis.New(fakeredis.Options{Seed: p.seed}, addr)
 	defer srv.Close()
 	node := srv.Node(addr)
@@ -681,6 +679,7 @@ func TestC39(t *testing.T) {
 			"Gets started at a quiescent point after Del do not return older values; after a holder's death the others complete with a loaded value within 1 s (close, blip) or ClientTTL+1 s (dead) of virtual time. "+
 			"A case is one history, non-trivial when some Get was served by another client's load (or a dead holder's lock was taken over)")
 	defer run.Finish()
+	rueidis.VerifSetQueueType("flowbuffer") // set once: pipes are created from background goroutines too
 	run.Assume("fakeredis executes SET NX GET PX, the three shipped Lua scripts, expiry and client-tracking invalidations like Redis does",
 		"no server latency is injected; bounds are virtual time")
 	seeds := run.Rand("cases")
